@@ -2,7 +2,9 @@
 // session harness. One Session per process; one torrent per distinct layout (cached); one fresh
 // scripted peer connection per case.
 //
-// Case:  plen=<n> total=<n> done=<01..> seed=<n> files=<a,b,c> | op ...
+// Case:  plen=<n> total=<n> done=<01..> seed=<n> files=<a,b,c> [enc=1] | op ...
+//   enc=1: the scripted peer negotiates MSE with an RC4 stream first (harness/common/mseinit.h); what
+//   is compared is the stream after the peer's own, independent RC4 decryption.
 //   R:i:b:l / C:i:b:l  the peer sends REQUEST / CANCEL (batched until the next W)
 //   D:0                unchoke decision of the real choke_queue: the peer's INTERESTED (batched, takes
 //                      effect in order when read); if the peer was snubbed by D:1 it is un-snubbed first
@@ -22,6 +24,7 @@
 
 #include "common/session.h"
 #include "common/wirepeer.h"
+#include "common/mseinit.h"
 #include "protocol/peer_connection_base.h"
 #include "torrent/exceptions.h"
 
@@ -67,8 +70,8 @@ static std::string show_piece(uint32_t i, uint32_t b, uint32_t l) {
   return std::to_string(i) + ":" + std::to_string(b) + ":" + std::to_string(l);
 }
 
-static std::string snapshot(Session& S, Torrent* T, uint16_t port) {
-  torrent::PeerConnectionBase* pcb = S.find_connection(T, port);
+static std::string snapshot(Session& S, Torrent* T, const std::string& ip, uint16_t port, bool enc) {
+  torrent::PeerConnectionBase* pcb = S.find_connection(T, ip, port);
   if (pcb == nullptr) return "X";
   char w = '?';
   switch (pcb->m_up->get_state()) {
@@ -79,7 +82,10 @@ static std::string snapshot(Session& S, Torrent* T, uint16_t port) {
   }
   return std::string(1, w) + "/" + (pcb->m_up_choke.choked() ? "1" : "0") + (pcb->m_send_choked ? "1" : "0") + "/" +
          std::to_string(pcb->m_peer_chunks.upload_queue()->size()) + "/" +
-         show_piece(pcb->m_up_piece.index(), pcb->m_up_piece.offset(), pcb->m_up_piece.length());
+         show_piece(pcb->m_up_piece.index(), pcb->m_up_piece.offset(), pcb->m_up_piece.length()) +
+         (enc && w == 'P' ? (pcb->m_encrypt_buffer ? "/e" + std::to_string(pcb->m_encrypt_buffer->remaining()) + ":" +
+                                                       std::to_string(pcb->m_encrypt_buffer->size_end())
+                                                   : std::string("/e-")) : std::string());
 }
 
 static std::string run_case(Session& S, const std::string& line) {
@@ -109,16 +115,27 @@ static std::string run_case(Session& S, const std::string& line) {
   if (!P.connect_to(S.listen_port(), ip.c_str(), 1 << 20, 0)) return "ERR:connect";
   char idbuf[21];
   snprintf(idbuf, sizeof idbuf, "-LV0001-%012u", g_case_no);
-  P.send_bytes(WirePeer::handshake(T->info_hash, std::string(idbuf, 20)) + WirePeer::keepalive());
+  bool enc = kv.count("enc") && kv["enc"] == "1";
+  MseInitiator M(P, 1000 + g_case_no);
+  if (enc && !M.negotiate(S, T->info_hash)) return "ERR:mse";
+  // R: the decrypted (or plain) receive side; all parsing below goes through it
+  WirePeer& R = enc ? M.plain : P;
+  auto absorb = [&]() { if (enc) M.absorb(); };
+  std::string hello = WirePeer::handshake(T->info_hash, std::string(idbuf, 20)) + WirePeer::keepalive();
+  P.send_bytes(enc ? M.seal(hello) : hello);
   pump(S, {&P});
+  absorb();
   HandshakeIn hs;
-  if (!P.take_handshake(hs) || hs.info_hash != T->info_hash) return "ERR:handshake";
+  if (!R.take_handshake(hs) || hs.info_hash != T->info_hash) return "ERR:handshake";
   uint16_t port = P.local_port();
-  if (S.find_connection(T, port) == nullptr) return "ERR:noconn";
+  std::string lip = P.local_ip();
+  torrent::PeerConnectionBase* pcb0 = S.find_connection(T, lip, port);
+  if (pcb0 == nullptr) return "ERR:noconn";
+  if (pcb0->is_encrypted() != enc) return "ERR:stream-mode";
   // whatever the library says before the scenario starts (bitfield, interested) is not compared
-  { WireMsg m; while (P.next_message(m)) {} }
-  if (!P.rx.empty()) return "ERR:prelude";
-  Session::set_send_budget(port, 0);
+  { WireMsg m; while (R.next_message(m)) {} }
+  if (!R.rx.empty()) return "ERR:prelude";
+  Session::set_send_budget(lip, port, 0);
 
   std::string batch, snaps, err;
   for (auto& o : ops) {
@@ -131,36 +148,37 @@ static std::string run_case(Session& S, const std::string& line) {
       // unchoke decision = the peer's INTERESTED reaching the real choke_queue (takes effect when the
       // batch is read, in order). After a snub: un-snub first (the queue then waits for INTERESTED)
       // and let 11 s of virtual time pass (choke_queue refuses to unchoke within 10 s of the last change).
-      torrent::PeerConnectionBase* pcb = S.find_connection(T, port);
+      torrent::PeerConnectionBase* pcb = S.find_connection(T, lip, port);
       if (pcb != nullptr && pcb->m_up_choke.snubbed()) {
         S.advance_us(11 * 1000000);
-        pcb = S.find_connection(T, port);
+        pcb = S.find_connection(T, lip, port);
         if (pcb != nullptr) S.force_choke(pcb, false);
       }
       batch += WirePeer::interested();
     } else if (o == "D:1") {
       if (!batch.empty()) return "BADCASE:D1-after-message";
-      torrent::PeerConnectionBase* pcb = S.find_connection(T, port);
+      torrent::PeerConnectionBase* pcb = S.find_connection(T, lip, port);
       if (pcb != nullptr && !pcb->m_up_choke.choked()) {
         S.force_choke(pcb, true);
         if (!pcb->m_up_choke.choked()) err = "ERR:choke-not-applied";
       }
     } else if (kind == 'W') {
       int64_t k = o == "W:inf" ? (1ll << 40) : std::stoll(o.substr(2));
-      P.tx_pending += batch;
+      P.tx_pending += enc ? M.seal(batch) : batch;
       batch.clear();
       for (int i = 0; i < 1000 && !P.tx_pending.empty(); i++) P.flush();
       if (!P.tx_pending.empty() && !P.eof) return "ERR:batch-does-not-fit";
-      Session::set_send_budget(port, k);
+      Session::set_send_budget(lip, port, k);
       pump(S, {&P});
-      Session::set_send_budget(port, 0);   // the budget belongs to this write opportunity only
+      absorb();
+      Session::set_send_budget(lip, port, 0);   // the budget belongs to this write opportunity only
       if (!snaps.empty()) snaps += ";";
-      snaps += snapshot(S, T, port);
+      snaps += snapshot(S, T, lip, port, enc);
     } else {
       return "BADCASE";
     }
   }
-  Session::set_send_budget(port, -1);
+  Session::set_send_budget(lip, port, -1);
 
   // parse what the peer received
   MD5_CTX md;
@@ -169,10 +187,10 @@ static std::string run_case(Session& S, const std::string& line) {
   std::string msgs, pay;
   int other = 0;
   while (true) {
-    std::string before = P.rx;
+    std::string before = R.rx;
     WireMsg m;
-    if (!P.next_message(m)) break;
-    size_t raw_len = before.size() - P.rx.size();
+    if (!R.next_message(m)) break;
+    size_t raw_len = before.size() - R.rx.size();
     bool keep = false;
     if (m.id == WirePeer::CHOKE || m.id == WirePeer::UNCHOKE) {
       keep = true;
@@ -193,12 +211,12 @@ static std::string run_case(Session& S, const std::string& line) {
   }
   unsigned char dg[16];
   MD5_Final(dg, &md);
-  torrent::PeerConnectionBase* pcb = S.find_connection(T, port);
+  torrent::PeerConnectionBase* pcb = S.find_connection(T, lip, port);
   bool closed = pcb == nullptr;
   std::string out = "closed=" + std::to_string(closed ? 1 : 0) + " n=" + std::to_string(n) + " md5=" + hex((char*)dg, 16) +
                     " msgs=" + (msgs.empty() ? "-" : msgs) + " snaps=" + (snaps.empty() ? "-" : snaps) +
                     " q=" + (closed ? std::string("X") : S.dump_upload_queue(pcb));
-  if (!P.rx.empty()) out += " trail=" + std::to_string(P.rx.size());
+  if (!R.rx.empty()) out += " trail=" + std::to_string(R.rx.size());
   if (!err.empty()) out += " " + err;
   out += " || pay=" + (pay.empty() ? "-" : pay) + " other=" + std::to_string(other) + " eof=" + std::to_string(P.eof ? 1 : 0);
 
